@@ -2,6 +2,7 @@
 
 from __future__ import annotations
 
+import asyncio
 from typing import Any
 
 from gallia.services.uds.core import service
@@ -31,6 +32,10 @@ class GraphECU(UDSServer):
         # session changes (from, to) that are answered busyRepeatRequest the first time they are requested
         self.busy_once: set[tuple[int, int]] = set()
         self.busy_fired = 0
+        # the ECU acknowledges ECUReset and reboots this many seconds later (0: at once, as gallia's own virtual ECU does);
+        # until then it goes on answering from the session it was in
+        self.reset_delay = 0.0
+        self.late_resets = 0
         self.monitor = Monitor()
         self._services: dict[int, dict[UDSIsoServices, list[int] | None]] = {}
         for s, ts in self.graph.items():
@@ -68,6 +73,16 @@ class GraphECU(UDSServer):
         if isinstance(request, service.ECUResetRequest):
             return service.ECUResetResponse(request.reset_type)
         return None
+
+    async def update_state(self, request: service.UDSRequest, response: service.UDSResponse) -> None:
+        if self.reset_delay and isinstance(response, service.ECUResetResponse):
+            asyncio.get_running_loop().call_later(self.reset_delay, self._late_reset)
+            return
+        await super().update_state(request, response)
+
+    def _late_reset(self) -> None:
+        self.late_resets += 1
+        self.state.reset()
 
 
 class _Junk:
@@ -111,6 +126,19 @@ class ModelECU(RandomUDSServer):
         self.spont_drop: set[int] = set()
         self._sns_in_session = 0
         self.spont_fired = 0
+        # the ECU acknowledges ECUReset and reboots this many seconds later (0: at once)
+        self.reset_delay = 0.0
+        self.late_resets = 0
+
+    async def update_state(self, request: service.UDSRequest, response: service.UDSResponse) -> None:
+        if self.reset_delay and isinstance(response, service.ECUResetResponse):
+            asyncio.get_running_loop().call_later(self.reset_delay, self._late_reset)
+            return
+        await super().update_state(request, response)
+
+    def _late_reset(self) -> None:
+        self.late_resets += 1
+        self.state.reset()
 
     def randomize(self) -> None:
         self.services = {s: dict(sv) for s, sv in self._table.items()}
